@@ -39,6 +39,24 @@ fn rank_pair_part(text: &str) -> String {
     keep.join(",")
 }
 
+/// the tokens from the first single-combo token on, as a sorted set of hex texts ('.'-separated; "-" if none)
+fn card_part(text: &str) -> String {
+    let mut v: Vec<String> = vec![];
+    let mut seen = false;
+    for tok in text.split(',') {
+        let b = tok.as_bytes();
+        if b.len() >= 2 && b"shdc".contains(&b[1]) {
+            seen = true;
+        }
+        if seen {
+            v.push(hex(b));
+        }
+    }
+    v.sort();
+    v.dedup();
+    if v.is_empty() { "-".to_string() } else { v.join(".") }
+}
+
 /// everything observable about a range: contents, views, text, re-parse
 pub fn describe_range(hr: &HandRange, with_eval: bool) -> String {
     let mut entries: Vec<(usize, u32)> = vec![];
@@ -52,6 +70,10 @@ pub fn describe_range(hr: &HandRange, with_eval: bool) -> String {
     let n = entries.len();
     let map = fmt_entries(&mut entries);
     let text = guarded(|| format!("{}", hr));
+    let octext = match &text {
+        Some(t) => card_part(t),
+        None => "panic".to_string(),
+    };
     let (text_s, rptext, reparse) = match &text {
         Some(t) => {
             let rp = match guarded(|| HandRange::from_str(t).map(|r| (r == *hr) as u8)) {
@@ -78,7 +100,7 @@ pub fn describe_range(hr: &HandRange, with_eval: bool) -> String {
         Some(s) => s,
         None => "panic".to_string(),
     };
-    let mut out = format!("ok n={} map={} bad={} text={} rptext={} rp={} orph={} reparse={}", n, map, bad, text_s, rptext, rp, orph, reparse);
+    let mut out = format!("ok n={} map={} bad={} text={} rptext={} octext={} rp={} orph={} reparse={}", n, map, bad, text_s, rptext, octext, rp, orph, reparse);
     if with_eval {
         // hand the range to the evaluator: flop 2h 2d 2c, the first three positions
         let req = IterReq { mode: "digest".to_string(), nextra: 0, board: [Some(card_of(49)), Some(card_of(50)), Some(card_of(51)), None, None],
@@ -348,7 +370,22 @@ pub fn run_op3(op: &str, a: &[&str]) -> Option<String> {
             let n: u32 = a[0].parse().unwrap();
             Some(match guarded(|| {
                 let board = [Some(card_of(5)), Some(card_of(22)), Some(card_of(47)), None, None];
-                let players: Vec<HandRange> = vec![HandRange::from_str("AKs,QQ:0.5,7d2c").unwrap(), HandRange::from_str("JTs:0.25,9h9s,AcKc").unwrap()];
+                // variant 0: fixed ranges.  variant v >= 1: player 0 holds ONE combo containing the unseen card whose turn row
+                // a cut of this very scope list falls on (odd v: the cut's turn_to row, even v: its river_to column), so that
+                // the row/column at the scope edge is wholly dead -- the structure a scope edge is most sensitive to.
+                let v: usize = if a.len() > 1 { a[1].parse().unwrap() } else { 0 };
+                let players: Vec<HandRange> = if v == 0 {
+                    vec![HandRange::from_str("AKs,QQ:0.5,7d2c").unwrap(), HandRange::from_str("JTs:0.25,9h9s,AcKc").unwrap()]
+                } else {
+                    let deck: Vec<usize> = (0..52usize).filter(|c| ![5usize, 22, 47].contains(c)).collect();
+                    let sc = crate::scope::calculate_scopes(n);
+                    let cut = &sc[((v - 1) / 2) % sc.len()];
+                    let pin = (if v % 2 == 1 { cut.turn_to } else { cut.river_to }) as usize % 49;
+                    let other = (pin + 24 + v / (2 * sc.len())) % 49;
+                    let other = if other == pin { (other + 1) % 49 } else { other };
+                    let p0: HandRange = vec![(CardPair::new(card_of(deck[pin]), card_of(deck[other])), 1.0f32)].into_iter().collect();
+                    vec![p0, HandRange::from_str("TT+:0.5,AQs+,KJo,7d2c,5s4s:0.25").unwrap()]
+                };
                 let tally = |ev: espada::evaluator::FlopExhaustiveEvaluator| -> (u64, u64, u64) {
                     let (mut n, mut w0, mut ties) = (0u64, 0u64, 0u64);
                     for sd in ev {
